@@ -21,7 +21,7 @@ def harnesses(tier):
         hs += [('uq', ('XV_RECL=STAMP',), False, '_stamp'), ('uq', ('XV_RECL=QSBR',), False, '_qsbr'), ('hm', ('XV_RECL=EBR',), False, '_ebr'), ('recl', ('XV_RECL=EBR',), True, '_ebr_tsan')]
     return hs
 HARNESSES = harnesses('quick')
-PROPERTY_FILES = ['Properties_C03', 'Properties_C03_seqlock_src', 'Properties_C03_seqlock_slots_src', 'Properties_C03_seqlock', 'Properties_C03_seqlock_slots']
+PROPERTY_FILES = ['Properties_C03', 'Properties_C03_vyukov_src', 'Properties_C03_seqlock_src', 'Properties_C03_seqlock_slots_src', 'Properties_C03_seqlock', 'Properties_C03_seqlock_slots']
 THEOREM_NOTES = {
     'scope': 'proved: (a) the generated synchronisation-annotation table is consistent (every annotated site at least as strong as annotated, every pair release->acquire or sc<->sc); (b) the meta-theory of the weak machine; (c) for seqlock - the structure whose correctness rests on fences - load atomicity, update on the latest generation and writer exclusion on EVERY execution of the weak machine, for any number of threads, words and slots, instantiated with the memory orders generated from seqlock.hpp (orders_ok gen_orders by computation), with machine-checked counter-example executions for each weakened site. For all other containers and the reclaimers robustness under weak executions and race freedom are explored on the real code, not proved',
 }
